@@ -141,12 +141,13 @@ void nmc_selftest();
 
 #ifdef NMC_MAIN
 namespace nmc {
-struct Opt { std::string tier = "quick", out = "", one = ""; int shard = 0, nshard = 1; bool list = false; double deadline = 0; long crash_cap = 50000; long case_timeout = 120; };
+struct Opt { std::string tier = "quick", out = "", one = "", dump = ""; int shard = 0, nshard = 1; bool list = false; double deadline = 0; long crash_cap = 50000; long case_timeout = 120; };
 
 inline double now() { timespec t; clock_gettime(CLOCK_MONOTONIC, &t); return t.tv_sec + t.tv_nsec * 1e-9; }
 
 inline int run_child(const Opt& o, long resume, FILE* out, double t_end) {
     Tier tier{o.tier};
+    FILE* dump = o.dump.empty() ? nullptr : fopen(o.dump.c_str(), "a");   // key <TAB> outcome hash <TAB> status, one line per executed case (cross-build differential)
     long index = -1;
     Shared* sh = g_sh;
     nmc_enumerate(tier, [&](const Case& c) {
@@ -173,6 +174,7 @@ inline int run_child(const Opt& o, long resume, FILE* out, double t_end) {
             if (sh->nsamples < 16 && (sh->nontrivial_distinct == 1 || (mix(kh) % 997) == 0)) { strncpy(sh->samples[sh->nsamples++], kb, 511); }
         }
         if (r.outcome) set_insert(sh->oset, OSET, sh->oset_used, sh->oset_capped, r.outcome);
+        if (dump) { fprintf(dump, "%s\t%016llx\t%s\n", kb, (unsigned long long)r.outcome, r.fail.empty() ? "P" : r.kind); fflush(dump); }
         if (!r.fail.empty()) {
             sh->fails++;
             for (auto& ch : r.fail) if (ch == '\n' || ch == '\t') ch = ' ';
@@ -181,6 +183,7 @@ inline int run_child(const Opt& o, long resume, FILE* out, double t_end) {
     });
     if (!sh->deadline_hit) sh->enum_done = 1;
     sh->emitted = index + 1;
+    if (dump) fclose(dump);
     return 0;
 }
 
@@ -195,6 +198,7 @@ inline int main_(int argc, char** argv) {
         else if (a == "--list") o.list = true;
         else if (a == "--out") o.out = nxt();
         else if (a == "--deadline") o.deadline = atof(nxt().c_str());
+        else if (a == "--dump") o.dump = nxt();
         else if (a == "--crash-cap") o.crash_cap = atol(nxt().c_str());
         else if (a == "--case-timeout") o.case_timeout = atol(nxt().c_str());
         else die("unknown option");
@@ -209,11 +213,12 @@ inline int main_(int argc, char** argv) {
         try { r = nmc_execute(c); }
         catch (const std::exception& e) { r = Outcome::bad("crash", std::string("uncaught exception: ") + e.what()); }
         catch (...) { r = Outcome::bad("crash", "uncaught exception (non-std)"); }
-        if (r.fail.empty()) { printf("PASS\t%s\n", o.one.c_str()); return 0; }
-        printf("FAIL\t%s\t%s\t%s\n", r.kind, o.one.c_str(), r.fail.c_str()); return 1;
+        if (r.fail.empty()) { printf("PASS\t%s\nOUTCOME\t%016llx\tP\n", o.one.c_str(), (unsigned long long)r.outcome); return 0; }
+        printf("FAIL\t%s\t%s\t%s\nOUTCOME\t%016llx\t%s\n", r.kind, o.one.c_str(), r.fail.c_str(), (unsigned long long)r.outcome, r.kind); return 1;
     }
     FILE* out = o.out.empty() ? stdout : fopen(o.out.c_str(), "w");
     if (!out) die("cannot open --out");
+    if (!o.dump.empty()) { FILE* d = fopen(o.dump.c_str(), "w"); if (d) fclose(d); }
     double t0 = now(), t_end = o.deadline > 0 ? t0 + o.deadline : 0;
     {   // oracle self-test runs in a child too (it must not take the run down silently)
         pid_t p = fork(); if (p == 0) { nmc_selftest(); _exit(0); }
@@ -240,6 +245,7 @@ inline int main_(int argc, char** argv) {
         std::string detail = why;
         if (FILE* e = fopen(errpath.c_str(), "r")) { char line[300]; int n = 0; while (n < 40 && fgets(line, sizeof line, e)) { n++; if (strstr(line, "ERROR") || strstr(line, "runtime error") || strstr(line, "what()") || strstr(line, "Assertion") || strstr(line, "assert")) { for (char* q = line; *q; q++) if (*q == '\n' || *q == '\t') *q = ' '; detail += " : "; detail += line; break; } } fclose(e); }
         fprintf(out, "FAIL\tcrash\t%s\t%s\n", g_sh->cur_key, detail.c_str());
+        if (!o.dump.empty()) if (FILE* d = fopen(o.dump.c_str(), "a")) { fprintf(d, "%s\t%016llx\tcrash\n", g_sh->cur_key, 0ULL); fclose(d); }
         g_sh->crashes++; g_sh->fails++; g_sh->evaluations++; g_sh->started = 0;
         resume = g_sh->cur_index + 1;
         if (g_sh->crashes >= o.crash_cap) { capped = true; break; }
